@@ -19,6 +19,8 @@ CLAUSES = (
 
 
 def check(c):
+    from rules._shared import special_tasks_family_rules
+    special_tasks_family_rules(c, 'C31.family-members')
     ap = c.func('task_state', 'TaskState._add_prerequisites')
     # all statements of the function and of new private helpers it alone
     # calls; variable names are not assumed
@@ -227,6 +229,10 @@ def check(c):
 
 
 VARIANTS = [
+    ('special-family-first-parent-members', 'cylc/flow/config.py',
+     "                    for member in self.runtime['descendants'][name]:",
+     "                    for member in self.get_first_parent_descendants().get(name, ()):",
+     'C31.family-members'),
     ('always-presatisfied', 'cylc/flow/task_state.py',
      '''                cpre[(p_prev, tdef.name, TASK_STATUS_SUCCEEDED)] = (
                     p_prev < tdef.start_point
